@@ -183,11 +183,22 @@ def rule_R1(ctx, M):
                       where, sample={'site': qn, 'certificate':
                                      'zero source + in-place zero write'})
         elif fn is M.kry:
+            # SciPy's info == 0 is no certificate for the returned field: the
+            # Krylov solvers test a recursively updated residual vector, which
+            # drifts from b - A x (bicgstab: CONVERGED with a true relative
+            # residual of 4e-3 at tol 1e-6).  Success in krylov() needs the
+            # tolerance test on the recomputed residual, i.e. certificate (a).
             cert = 'c'
             ok, why = certify_krylov(ctx, M, site, guards)
-            ctx.check('C01.R1.success_site', cons, ok, why, where,
+            ctx.check('C01.R1.success_site', cons, False,
+                      'CONVERGED rests on the return code of the SciPy '
+                      'solver alone' + (f' ({why})' if not ok else '') +
+                      ': that code refers to the solver\'s recursively '
+                      'updated residual, not to b - A x of the returned '
+                      'field; the recomputed residual must pass the '
+                      'tolerance test', where,
                       sample={'site': qn, 'certificate':
-                              'scipy info == 0 with rtol = var.tol'})
+                              'scipy info == 0 only'})
         if cert is None:
             ctx.fail('C01.R1.success_site', cons, 'success is reported '
                      'without a tolerance guard, zero-source or scipy '
